@@ -11,9 +11,12 @@ REGISTRATION = {
             "one place), a submit on a full queue is answered busy in the same step without touching anything else. Drain "
             "(good variant): in every reachable state in which no internal or timer action is enabled, all requests are done and "
             "no load is in flight, every started runner is shut down and nothing is loaded (every open runner has a wake-up "
-            "pending, every holder a finish event in flight). Fairness (that such states are reached) and the answered-eventually "
-            "half for requests parked in the pending loop are covered by end-of-trace monitors on the real scheduler "
-            "(unanswered / not drained / deadlock), not by a theorem.",
+            "pending, every holder a finish event in flight). all_answered (good variant): in every reachable state "
+            "in which nothing internal is enabled, no load is in flight and every request holding a runner has finished, the "
+            "pending loop is idle and nothing is queued, i.e. every accepted request has its single reply or was skipped as "
+            "already cancelled (a pending loop waiting for an unload event always gets one). Fairness (that such states are "
+            "reached) is outside the model and covered by end-of-trace monitors on the real scheduler (unanswered / not drained "
+            "/ deadlock).",
     "design_ref": "DESIGN.md §5 C01/C02/C11",
     "note": COMMON_NOTE + "Outside the model: preemption inside a locked region, lock-order inversion, channel capacities of "
             "finishedReqCh/expiredCh/unloadedCh, real timers, unloadAllRunners at shutdown, the cuda VRAM-recovery poller.",
@@ -26,6 +29,8 @@ THEOREMS = [
     "OllamaVerif.C02.full_queue_is_busy_error",
     "OllamaVerif.C02.queue_with_room_accepts",
     "OllamaVerif.C02.drain",
+    "OllamaVerif.C02.all_answered",
+    "OllamaVerif.Sched.reach_invAll8",
     "OllamaVerif.C02.cpc_idle_of_stuck",
     "OllamaVerif.C02.drained_trace_runs",
     "OllamaVerif.Sched.reach_invAll",
